@@ -47,6 +47,8 @@ CONSTANTS Clients,          \* e.g. {1, 2}
 \*  [k |-> "rename", id |-> i, new |-> n]  RenamePool
 \*  [k |-> "rmid",   id |-> i]             RemovePool
 \*  [k |-> "read",   key |-> n]            lookup
+\*  [k |-> "scan",   key |-> b]            query of branch b: ReadHead pins the tip commit (compile time),
+\*                                        the data is read in a later step ("fin") while writers may commit
 
 VARIABLES entries,  \* the journal: sequence of entry records (entry n exists iff n <= Len(entries))
           tabs,     \* ghost: tabs[n+1] = table after replaying n entries (what Store.load computes)
@@ -59,7 +61,7 @@ VARIABLES entries,  \* the journal: sequence of entry records (entry n exists if
           sched     \* the schedule so far: sequence of [c, lbl, n, r]
 vars == <<entries, tabs, head, cobjs, pc, opi, at, tbl, loc, fresh, resp, last, budget, crashes, sched>>
 
-NoLoc == [par |-> -1, cid |-> -1, cr |-> 0, jr |-> 0, pend |-> [k |-> "none"], retry |-> FALSE, txn |-> -1]
+NoLoc == [par |-> -1, cid |-> -1, cr |-> 0, jr |-> 0, pend |-> [k |-> "none"], retry |-> FALSE, txn |-> -1, t0 |-> 0]
 
 Table(n) == tabs[n + 1]
 Has(t, k) == k \in DOMAIN t
@@ -85,7 +87,9 @@ Sched(c, lbl, n, r) ==
   /\ sched' = Append(sched, [c |-> c, lbl |-> lbl, n |-> n, r |-> r])
 
 Finish(c, res, val) ==
-  /\ resp' = Append(resp, [c |-> c, i |-> opi[c], op |-> CurOp(c), res |-> res, val |-> val, txn |-> loc[c].txn])
+  /\ resp' = Append(resp, [c |-> c, i |-> opi[c], op |-> CurOp(c), res |-> res, val |-> val, txn |-> loc[c].txn,
+                            \* first and last step of the operation in the schedule (real-time order)
+                            t0 |-> IF pc[c] = "idle" THEN Len(sched) + 1 ELSE loc[c].t0, t1 |-> Len(sched) + 1])
   /\ pc' = [pc EXCEPT ![c] = "idle"]
   /\ opi' = [opi EXCEPT ![c] = @ + 1]
 
@@ -107,7 +111,7 @@ Constraint(t, e) ==
 RH0(c) ==
   /\ pc[c] \in {"idle", "relook"} /\ HasOp(c) /\ CanRun(c)
   /\ LET r == Reload(c)  t == r.tbl  op == CurOp(c)
-         l0 == IF pc[c] = "idle" THEN NoLoc ELSE loc[c] IN
+         l0 == IF pc[c] = "idle" THEN [NoLoc EXCEPT !.t0 = Len(sched) + 1] ELSE loc[c] IN
      /\ at' = [at EXCEPT ![c] = r.at] /\ tbl' = [tbl EXCEPT ![c] = t]
      /\ Sched(c, "rh", head, "")
      /\ UNCHANGED <<entries, tabs, head, cobjs, crashes>>
@@ -117,6 +121,11 @@ RH0(c) ==
                ELSE /\ loc' = [loc EXCEPT ![c] = [l0 EXCEPT !.par = t[op.key], !.cid = fresh]]
                     /\ fresh' = fresh + 1
                     /\ pc' = [pc EXCEPT ![c] = "putc"] /\ UNCHANGED <<opi, resp>>
+          [] op.k = "scan" ->
+               IF ~Has(t, op.key)
+               THEN /\ Finish(c, "notfound", -1) /\ loc' = [loc EXCEPT ![c] = l0] /\ UNCHANGED fresh
+               ELSE /\ loc' = [loc EXCEPT ![c] = [l0 EXCEPT !.par = t[op.key]]]
+                    /\ pc' = [pc EXCEPT ![c] = "fin"] /\ UNCHANGED <<opi, resp, fresh>>
           [] op.k = "read" ->
                /\ Finish(c, IF Has(t, op.key) THEN "ok" ELSE "notfound", IF Has(t, op.key) THEN t[op.key] ELSE -1)
                /\ loc' = [loc EXCEPT ![c] = l0] /\ UNCHANGED fresh
@@ -198,6 +207,13 @@ RMC(c) ==
           /\ pc' = [pc EXCEPT ![c] = "relook"] /\ UNCHANGED <<opi, resp>>
      ELSE /\ Finish(c, IF loc[c].retry THEN "commitfailed" ELSE loc[c].pend.k, -1) /\ UNCHANGED loc
 
+\* ---- a query drains the data of the commit it pinned -----------------------------
+Fin(c) ==
+  /\ pc[c] = "fin" /\ CanRun(c)
+  /\ Sched(c, "fin", 0, "")
+  /\ Finish(c, "ok", loc[c].par)
+  /\ UNCHANGED <<entries, tabs, head, cobjs, at, tbl, loc, fresh, crashes>>
+
 \* ---- C17: fail-stop of a client at any point -------------------------------------
 Crash(c) ==
   /\ crashes < CrashBound /\ pc[c] \notin {"idle", "dead"}
@@ -213,10 +229,10 @@ Init ==
   /\ loc = [c \in Clients |-> NoLoc]
   /\ fresh = 100 /\ resp = <<>> /\ last = 0 /\ budget = 0 /\ crashes = 0 /\ sched = <<>>
 
-Next == \E c \in Clients : RH0(c) \/ PutC(c) \/ RH1(c) \/ CAS(c) \/ WH(c) \/ RMC(c) \/ Crash(c)
+Next == \E c \in Clients : RH0(c) \/ PutC(c) \/ RH1(c) \/ CAS(c) \/ WH(c) \/ RMC(c) \/ Fin(c) \/ Crash(c)
 
 Spec == Init /\ [][Next]_vars
-FairSpec == Spec /\ \A c \in Clients : WF_vars(RH0(c) \/ PutC(c) \/ RH1(c) \/ CAS(c) \/ WH(c) \/ RMC(c))
+FairSpec == Spec /\ \A c \in Clients : WF_vars(RH0(c) \/ PutC(c) \/ RH1(c) \/ CAS(c) \/ WH(c) \/ RMC(c) \/ Fin(c))
 
 Done == \A c \in Clients : pc[c] = "dead" \/ (pc[c] = "idle" /\ ~HasOp(c))
 
@@ -247,7 +263,7 @@ ValuesUnique == \A n \in 0..Len(entries) : \A k1, k2 \in DOMAIN Table(n) :
 \* an acknowledged operation contributed exactly one entry, a failed one none
 AckedOnce == \A j \in 1..Len(resp) :
    LET n == Cardinality({i \in 1..Len(entries) : entries[i].txn = resp[j].txn}) IN
-   IF resp[j].res = "ok" /\ resp[j].op.k # "read" THEN n = 1 ELSE (resp[j].txn = -1 \/ n = 0)
+   IF resp[j].res = "ok" /\ resp[j].op.k \notin {"read", "scan"} THEN n = 1 ELSE (resp[j].txn = -1 \/ n = 0)
 \* a failed branch commit left no commit object behind; an acknowledged one is the child of the tip it replaced
 NoOrphanOnFail == \A j \in 1..Len(resp) :
    (resp[j].op.k = "tip" /\ resp[j].res # "ok") => ~\E o \in cobjs : o.id = resp[j].txn
@@ -263,6 +279,14 @@ SingleChain == \A k \in DOMAIN Table(Len(entries)) :
    (\A j \in 1..Len(resp) : resp[j].op.k = "rmkey" => resp[j].res # "ok") =>
        /\ acked \subseteq ToSet(ch)
        /\ \A a \in acked : Cardinality({i \in 1..Len(ch) : ch[i] = a}) = 1
+
+\* C13: a query that starts after a commit was acknowledged sees it (its pinned commit
+\* has the acknowledged commit on its parent chain); a query sees exactly one commit.
+ReadYourAck == \A i, j \in 1..Len(resp) :
+   (/\ resp[j].op.k = "scan" /\ resp[j].res = "ok"
+    /\ resp[i].op.k = "tip" /\ resp[i].res = "ok" /\ resp[i].op.key = resp[j].op.key
+    /\ resp[i].t1 < resp[j].t0)
+   => resp[i].val \in ToSet(Chain(resp[j].val))
 
 \* liveness (crash-free): every operation returns
 Terminates == <>Done
